@@ -1,7 +1,7 @@
 #!/bin/bash
-# thorough sweep of every check (background use: vp run -- bash checks/sweep.sh [wall seconds per check])
+# thorough sweep of every check (background use: vp run -- bash checks/sweep.sh [wall seconds per check]; SWEEP_CHECKS="C10 C13" restricts it)
 W=${1:-600}
 cd "$(dirname "$0")/.."
-for c in C10 C20 C19 C13 C14 C01 C02 C03 C04 C05 C06 C11 C16; do
+for c in ${SWEEP_CHECKS:-C10 C20 C19 C13 C14 C01 C02 C03 C04 C05 C06 C11 C16}; do
   VERIF_WALL=$W VERIF_EVIDENCE_DIR=$PWD/sweep_evidence VERIF_REPLAY_DIR=$PWD/sweep_replays timeout $((W+600)) /venv/bin/python checks/run.py $c --tier thorough 2>&1 | grep -E "^(violation|VIOLATION|KNOWN|HARNESS|C[0-9]+ )" | cut -c1-700
 done
